@@ -118,3 +118,142 @@ func VerifC09_lru() {
 func VerifC09_adapter() {
 	verifStoreHistory(NewSimpleCacheAdapter(&verifSimpleCache{m: map[string]RedisMessage{}}))
 }
+
+// VerifC09_step (rely/guarantee step): the store is put into an arbitrary state — each of
+// three identities (two commands under key a, one under key b) is absent, pending, pending
+// with a waiter, or completed, inserted in either order — then ONE operation runs and the
+// complete observable state is checked against the ghost model.
+func verifStoreStep(st CacheStore) {
+	type ident struct{ k, c string }
+	ids := []ident{{"a", "GET"}, {"a", "HGETf"}, {"b", "GET"}}
+	now := time.Now()
+	bg := context.Background()
+	state := make([]int, len(ids)) // 0 absent, 1 pending, 2 pending+waiter, 3 completed
+	waiter := make([]CacheEntry, len(ids))
+	val := make([]string, len(ids))
+	for i := range ids {
+		state[i] = verifChoose(4)
+	}
+	order := []int{0, 1, 2}
+	if verifChoose(2) == 1 {
+		order = []int{2, 1, 0}
+	}
+	for _, i := range order {
+		if state[i] == 0 {
+			continue
+		}
+		st.Flight(ids[i].k, ids[i].c, time.Minute, now)
+		switch state[i] {
+		case 2:
+			_, waiter[i] = st.Flight(ids[i].k, ids[i].c, time.Minute, now)
+			verifAssert(waiter[i] != nil, "second reader joins the flight")
+		case 3:
+			val[i] = "v" + string([]byte{'0' + byte(i)})
+			st.Update(ids[i].k, ids[i].c, strmsg(typeSimpleString, val[i]))
+		}
+	}
+	// the operation
+	closed := false
+	woken := make([]error, len(ids)) // expected wake-up error for waiters (nil: value)
+	wake := make([]bool, len(ids))
+	t := verifChoose(len(ids))
+	switch verifChoose(6) {
+	case 0: // reply arrives for identity t
+		st.Update(ids[t].k, ids[t].c, strmsg(typeSimpleString, "new"))
+		if state[t] == 1 || state[t] == 2 {
+			wake[t] = state[t] == 2
+			state[t], val[t] = 3, "new"
+		}
+		verifReach("update")
+	case 1: // request for identity t failed
+		st.Cancel(ids[t].k, ids[t].c, verifErrPage)
+		if state[t] == 1 || state[t] == 2 {
+			wake[t], woken[t] = state[t] == 2, verifErrPage
+			state[t] = 0
+		}
+		verifReach("cancel")
+	case 2: // invalidation of t's key
+		st.Delete([]RedisMessage{strmsg(typeBlobString, ids[t].k)})
+		for i := range ids {
+			if ids[i].k == ids[t].k && state[i] == 3 {
+				state[i] = 0
+			}
+		}
+		verifReach("invalidate")
+	case 3: // flush
+		st.Delete(nil)
+		for i := range ids {
+			if state[i] == 3 {
+				state[i] = 0
+			}
+		}
+		verifReach("flush")
+	case 4: // connection lost
+		st.Close(ErrDoCacheAborted)
+		closed = true
+		for i := range ids {
+			if state[i] == 2 {
+				wake[i], woken[i] = true, ErrDoCacheAborted
+			}
+			state[i] = 0
+		}
+		verifReach("close")
+	default: // another read of identity t
+		v, e := st.Flight(ids[t].k, ids[t].c, time.Minute, now)
+		switch state[t] {
+		case 0:
+			verifAssert(v.typ == 0 && e == nil, "a miss with nothing in flight tells exactly this caller to send")
+			state[t] = 1
+		case 1, 2:
+			verifAssert(v.typ == 0 && e != nil, "while a request is in flight other readers wait on it and send nothing")
+		default:
+			verifAssert(v.typ != 0 && v.string() == val[t], "a hit returns the reply stored for exactly that command")
+		}
+		verifReach("flight")
+	}
+	// waiters woken by the operation
+	for i := range ids {
+		if wake[i] {
+			m, err := waiter[i].Wait(bg) // a wait that blocks here is reported as HANG
+			if woken[i] != nil {
+				verifAssert(err == woken[i], "waiters are woken with the request's error")
+			} else {
+				verifAssert(err == nil && m.string() == val[i], "waiters receive the owner's reply")
+			}
+			waiter[i] = nil
+			verifReach("woken")
+		}
+	}
+	// the complete observable state afterwards
+	for i := range ids {
+		v, e := st.Flight(ids[i].k, ids[i].c, time.Minute, now)
+		if closed {
+			verifAssert(v.typ == 0, "a closed store never answers with a hit")
+			continue
+		}
+		switch state[i] {
+		case 0:
+			verifAssert(v.typ == 0 && e == nil, "afterwards: absent identities miss and send")
+		case 1, 2:
+			verifAssert(v.typ == 0 && e != nil, "afterwards: pending identities are still in flight")
+		default:
+			verifAssert(v.typ != 0 && v.string() == val[i], "afterwards: completed identities hit with their own reply")
+		}
+	}
+	// pending entries that were left alone can still be completed and wake their waiters
+	for i := range ids {
+		if !closed && state[i] == 2 && waiter[i] != nil {
+			st.Update(ids[i].k, ids[i].c, strmsg(typeSimpleString, "late"))
+			m, err := waiter[i].Wait(bg)
+			verifAssert(err == nil && m.string() == "late", "a flight untouched by the operation still completes its waiters")
+		}
+	}
+}
+
+func VerifC09_stepLRU() {
+	verifStoreStep(newLRU(CacheStoreOption{CacheSizeEachConn: 1 << 20}))
+}
+
+func VerifC09_stepAdapter() {
+	verifStoreStep(NewSimpleCacheAdapter(&verifSimpleCache{m: map[string]RedisMessage{}}))
+}
